@@ -286,4 +286,125 @@ example : ∃ σ', AppliesProc countStore (.closure countLam 0) [.num (.int 1000
     (.ok (.num (.int 1000000))) σ' ∧ σ'.depth = 0 ∧ σ'.maxDepth = 2 :=
   loop_depth_bounded_concrete 1000000 (by decide)
 
+/-! ### the other loop shapes
+
+Each theorem: in ANY store whose frame `g` sees the needed native procedures and the loop's own
+name(s), for EVERY count an `i32` can hold, the activation completes with the result of the bounded
+iteration, gives `depth` back, and `maxDepth` is at most `max σ.maxDepth (σ.depth + 2)`. -/
+
+/-- from a bound on the loop to the bound on the activation -/
+theorem activation_bound {σ : Store} {p args env r} {k : Nat}
+    (h : ∃ σ₁, Applies (enter σ) p args env r σ₁ ∧ σ₁.maxDepth ≤ max (enter σ).maxDepth ((enter σ).depth + k)) :
+    ∃ σ', AppliesProc σ p args env r σ' ∧ σ'.depth = σ.depth ∧ σ'.maxDepth ≤ max σ.maxDepth (σ.depth + (k + 1)) := by
+  obtain ⟨σ₁, hl, hm⟩ := h
+  refine ⟨leave σ₁, AppliesProc.of_loop hl, ?_, ?_⟩
+  · show σ₁.depth - 1 = σ.depth
+    rw [hl.depthOk.1]; rfl
+  · show σ₁.maxDepth ≤ _
+    refine Nat.le_trans hm ?_
+    show max (max σ.maxDepth (σ.depth + 1)) (σ.depth + 1 + k) ≤ _
+    omega
+
+/-- THE TAIL CALL WRAPPED IN ANY GOOD TAIL CONTEXT: `(define (loop n acc) (if (= n 0) acc E))` where
+evaluating the tail expression `E` leads (`TailPath`: through `if` arms and lambda applications) to
+the call `(loop (- n 1) (+ acc 1))` in a frame that still sees the loop's variables, raising
+`maxDepth` at most to `depth + 1` (`GoodContext`) -/
+theorem loop_depth_bounded_in_context {σ : Store} {g : Nat} (env : Nat) (E : Expr)
+    (hE : GoodContext env (ctxLam E) g E)
+    (heq : Sees σ g "=" (.builtin .numEq)) (hsub : Sees σ g "-" (.builtin .sub)) (hadd : Sees σ g "+" (.builtin .add))
+    (hloop : Sees σ g "loop" (.closure (ctxLam E) g)) (N : Nat) (hN : N ≤ 2147483647) :
+    ∃ σ', AppliesProc σ (.closure (ctxLam E) g) [.num (.int N), .num (.int 0)] env (.ok (.num (.int N))) σ' ∧
+      σ'.depth = σ.depth ∧ σ'.maxDepth ≤ max σ.maxDepth (σ.depth + 2) := by
+  obtain ⟨σ₁, hl, hm⟩ := ctx_loop g env E hE N 0 (enter σ) (heq.of_frames_eq rfl) (hsub.of_frames_eq rfl)
+    (hadd.of_frames_eq rfl) (hloop.of_frames_eq rfl) (by omega) (by omega) (by omega)
+  have : (0 : Int) + (N : Int) = N := by omega
+  rw [this] at hl
+  exact activation_bound (k := 1) ⟨σ₁, hl, hm⟩
+
+/-- good contexts exist and compose: the empty one, `((lambda () □))` (the expansion of `begin` and
+`(let () …)`), `((lambda (x) □) v)` (the expansion of `let`), the arms of an `if` — e.g. the call
+wrapped as `(if #t ((lambda () ((lambda (k) □) 7))) 0)` -/
+theorem good_contexts (env : Nat) (L : Lambda) (g : Nat) :
+    GoodContext env L g recCall ∧
+    (∀ E, GoodContext env L g E → GoodContext env L g (.call (.lambda (.mk ⟨[], none⟩ [] ([] ++ [E])) none) [] none)) ∧
+    (∀ E x v, (x ≠ "n" ∧ x ≠ "acc" ∧ x ≠ "-" ∧ x ≠ "+" ∧ x ≠ "loop") → GoodContext env L g E →
+      GoodContext env L g (.call (.lambda (.mk ⟨[x], none⟩ [] ([] ++ [E])) none) [.prim (.int v) none] none)) ∧
+    (∀ E alt, GoodContext env L g E → GoodContext env L g (.cond (.prim (.bool true) none) E alt none)) ∧
+    (∀ E c, GoodContext env L g E → GoodContext env L g (.cond (.prim (.bool false) none) c (some E) none)) :=
+  ⟨goodContext_here env L g, fun _ h => goodContext_thunk env L g h, fun _ x v hx h => goodContext_let env L g x v hx h,
+   fun _ alt h => goodContext_if_true env L g alt h, fun _ c h => goodContext_if_false env L g c h⟩
+
+example (env g : Nat) (L : Lambda) : GoodContext env L g
+    (.cond (.prim (.bool true) none)
+      (.call (.lambda (.mk ⟨[], none⟩ [] ([] ++
+        [.call (.lambda (.mk ⟨["k"], none⟩ [] ([] ++ [recCall])) none) [.prim (.int 7) none] none])) none) [] none)
+      (some (.prim (.int 0) none)) none) :=
+  goodContext_if_true env L g _ (goodContext_thunk env L g
+    (goodContext_let env L g "k" 7 (by decide) (goodContext_here env L g)))
+
+/-- MUTUAL RECURSION: `(define (even? n) (if (= n 0) #t (odd? (- n 1))))`,
+`(define (odd? n) (if (= n 0) #f (even? (- n 1))))`: `(even? N)` is `N mod 2 = 0` -/
+theorem loop_depth_bounded_mutual {σ : Store} {g : Nat} (env : Nat) (henv : ParityEnv σ g) (N : Nat)
+    (hN : N ≤ 2147483647) :
+    ∃ σ', AppliesProc σ (.closure (parityLam true "odd?") g) [.num (.int N)] env (.ok (.bool (N % 2 == 0))) σ' ∧
+      σ'.depth = σ.depth ∧ σ'.maxDepth ≤ max σ.maxDepth (σ.depth + 2) := by
+  have henv' : ParityEnv (enter σ) g :=
+    ⟨henv.eq.of_frames_eq rfl, henv.sub.of_frames_eq rfl, henv.even.of_frames_eq rfl, henv.odd.of_frames_eq rfl⟩
+  obtain ⟨⟨σ₁, hl, hm⟩, _⟩ := parity_loop g env N (enter σ) henv' (by omega)
+  exact activation_bound (k := 1) ⟨σ₁, hl, Nat.le_of_eq hm⟩
+
+/-- A LOOP THROUGH A PROCEDURE PARAMETER: `(define (loop f n acc) (if (= n 0) acc (f f (- n 1) (+ acc 1))))`
+applied to itself -/
+theorem loop_depth_bounded_higher_order {σ : Store} {g : Nat} (env : Nat) (henv : ArithEnv σ g) (N : Nat)
+    (hN : N ≤ 2147483647) :
+    ∃ σ', AppliesProc σ (.closure hoLam g) [.closure hoLam g, .num (.int N), .num (.int 0)] env
+        (.ok (.num (.int N))) σ' ∧ σ'.depth = σ.depth ∧ σ'.maxDepth ≤ max σ.maxDepth (σ.depth + 2) := by
+  have henv' : ArithEnv (enter σ) g :=
+    ⟨henv.eq.of_frames_eq rfl, henv.sub.of_frames_eq rfl, henv.add.of_frames_eq rfl⟩
+  obtain ⟨σ₁, hl, hm⟩ := ho_loop g env N 0 (enter σ) henv' (by omega) (by omega) (by omega)
+  have : (0 : Int) + (N : Int) = N := by omega
+  rw [this] at hl
+  exact activation_bound (k := 1) ⟨σ₁, hl, Nat.le_of_eq hm⟩
+
+/-- A LOOP WITH A REST PARAMETER: `(define (loop n . rest) (if (= n 0) (car rest) (loop (- n 1) (+ (car rest) 1))))`
+(the final `(car rest)` is itself a tail call, of a native procedure) -/
+theorem loop_depth_bounded_variadic {σ : Store} {g : Nat} (env : Nat) (henv : VarEnv σ g) (N : Nat)
+    (hN : N ≤ 2147483647) :
+    ∃ σ', AppliesProc σ (.closure varLam g) [.num (.int N), .num (.int 0)] env (.ok (.num (.int N))) σ' ∧
+      σ'.depth = σ.depth ∧ σ'.maxDepth ≤ max σ.maxDepth (σ.depth + 2) := by
+  have henv' : VarEnv (enter σ) g :=
+    ⟨henv.eq.of_frames_eq rfl, henv.sub.of_frames_eq rfl, henv.add.of_frames_eq rfl, henv.car.of_frames_eq rfl,
+     henv.loop.of_frames_eq rfl⟩
+  obtain ⟨σ₁, hl, hm⟩ := var_loop g env N 0 (enter σ) henv' (by omega) (by omega) (by omega)
+  have : (0 : Int) + (N : Int) = N := by omega
+  rw [this] at hl
+  exact activation_bound (k := 1) ⟨σ₁, hl, Nat.le_of_eq hm⟩
+
+/-- `apply` IN TAIL POSITION: `(define (loop n acc) (if (= n 0) acc (apply loop (- n 1) (cons (+ acc 1) '()))))` -/
+theorem loop_depth_bounded_apply {σ : Store} {g : Nat} (env : Nat) (henv : AppEnv σ g) (N : Nat)
+    (hN : N ≤ 2147483647) :
+    ∃ σ', AppliesProc σ (.closure appLam g) [.num (.int N), .num (.int 0)] env (.ok (.num (.int N))) σ' ∧
+      σ'.depth = σ.depth ∧ σ'.maxDepth ≤ max σ.maxDepth (σ.depth + 2) := by
+  have henv' : AppEnv (enter σ) g :=
+    ⟨henv.eq.of_frames_eq rfl, henv.sub.of_frames_eq rfl, henv.add.of_frames_eq rfl, henv.cons.of_frames_eq rfl,
+     henv.apply.of_frames_eq rfl, henv.loop.of_frames_eq rfl⟩
+  obtain ⟨σ₁, hl, hm⟩ := app_loop g env N 0 (enter σ) henv' (by omega) (by omega) (by omega)
+  have : (0 : Int) + (N : Int) = N := by omega
+  rw [this] at hl
+  exact activation_bound (k := 1) ⟨σ₁, hl, Nat.le_of_eq hm⟩
+
+/-- the environments of the four shapes are inhabited (root frames binding the names) -/
+example : ParityEnv { frames := #[{ parent := none, defs := [("=", .builtin .numEq), ("-", .builtin .sub),
+      ("even?", .closure (parityLam true "odd?") 0), ("odd?", .closure (parityLam false "even?") 0)] }] } 0 ∧
+    ArithEnv { frames := #[{ parent := none, defs := [("=", .builtin .numEq), ("-", .builtin .sub),
+      ("+", .builtin .add)] }] } 0 ∧
+    VarEnv { frames := #[{ parent := none, defs := [("=", .builtin .numEq), ("-", .builtin .sub),
+      ("+", .builtin .add), ("car", .builtin .car), ("loop", .closure varLam 0)] }] } 0 ∧
+    AppEnv { frames := #[{ parent := none, defs := [("=", .builtin .numEq), ("-", .builtin .sub),
+      ("+", .builtin .add), ("cons", .builtin .cons), ("apply", .builtin .apply), ("loop", .closure appLam 0)] }] } 0 :=
+  ⟨⟨⟨by decide, rfl⟩, ⟨by decide, rfl⟩, ⟨by decide, rfl⟩, ⟨by decide, rfl⟩⟩,
+   ⟨⟨by decide, rfl⟩, ⟨by decide, rfl⟩, ⟨by decide, rfl⟩⟩,
+   ⟨⟨by decide, rfl⟩, ⟨by decide, rfl⟩, ⟨by decide, rfl⟩, ⟨by decide, rfl⟩, ⟨by decide, rfl⟩⟩,
+   ⟨⟨by decide, rfl⟩, ⟨by decide, rfl⟩, ⟨by decide, rfl⟩, ⟨by decide, rfl⟩, ⟨by decide, rfl⟩, ⟨by decide, rfl⟩⟩⟩
+
 end Ruschm.C02
